@@ -21,7 +21,7 @@
 (* Each event carries what the acting endpoint put on the wire during the  *)
 (* step (out: <<kind, dt, n>>) and its state for that channel afterwards:  *)
 (*   writer events: swin (_send_window), sbufN (bytes in _send_buf),       *)
-(*                  sstate (_send_state)                                   *)
+(*                  sstate (_send_state), spaused (_send_paused)           *)
 (*   reader events: rwin (_recv_window), rbufN (chunks in _recv_buf),      *)
 (*                  paused (_recv_paused), rstate (_recv_state),           *)
 (*                  dlen (bytes the session has received so far, per dt)   *)
@@ -52,6 +52,7 @@ WriterMatch(e) ==
     /\ swin'[e.ch] = e.swin
     /\ BufUnits(sbuf'[e.ch]) = e.sbufN
     /\ sstate'[e.ch] = e.sstate
+    /\ spaused'[e.ch] = e.spaused
 ReaderMatch(e) ==
     /\ Kinds(bwd, bwd') = AsTuples(e.out)
     /\ rwin'[e.ch] = e.rwin
@@ -87,7 +88,7 @@ TraceReport ==
 \* the C07 / C08 invariants of Channel.tla, evaluated in every state of every recorded execution
 TraceInv == /\ DeliveredIsPrefix /\ Isolation /\ EOFLast
             /\ NeverExceedPeerWindow /\ NeverExceedPktSize /\ NeverAcceptBeyondGrant
-            /\ BufferBounded /\ HonestNoError
+            /\ BufferBounded /\ HonestNoError /\ WriterNotStuck
 
 \* diagnosis (Strict = FALSE, one trace): evaluated on the state reached after event l-1
 Prev == Traces[tid].ev[l - 1]
@@ -95,6 +96,7 @@ IsW == Prev.e \in {"write", "eof", "dbwd"}
 DiagSwin == (l > 1 /\ IsW) => swin[Prev.ch] = Prev.swin
 DiagSbuf == (l > 1 /\ IsW) => BufUnits(sbuf[Prev.ch]) = Prev.sbufN
 DiagSstate == (l > 1 /\ IsW) => sstate[Prev.ch] = Prev.sstate
+DiagSpaused == (l > 1 /\ IsW) => spaused[Prev.ch] = Prev.spaused
 DiagRwin == (l > 1 /\ ~IsW) => rwin[Prev.ch] = Prev.rwin
 DiagRbuf == (l > 1 /\ ~IsW) => Len(rbuf[Prev.ch]) = Prev.rbufN
 DiagPaused == (l > 1 /\ ~IsW) => paused[Prev.ch] = Prev.paused
